@@ -141,6 +141,7 @@ func LoadProg(root string, overlay map[string][]byte) *Prog {
 		}
 	}
 	p.assertNoBuildTagsOrUnsafe()
+	stableGlobalsProg = p
 	return p
 }
 
